@@ -8,3 +8,4 @@ import MypyVerif.Props.C12Mro
 import MypyVerif.Props.C12Reach
 import MypyVerif.Props.C12Bind
 import MypyVerif.Props.C12Fold
+import MypyVerif.Props.C11
